@@ -88,7 +88,7 @@ pub fn replay(id: &str, doc: &Value) -> i32 {
         crate::env::set_log_mode(crate::env::LOG_OFF);
     }
     match id {
-        "C04" if !case["authenticator_ops"].is_null() => c04::replay(case),
+        "C04" | "C18" if !case["authenticator_ops"].is_null() => c04::replay(case),
         "C13" => c13::replay(case),
         "C14" => c14::replay(case),
         "C15" if !case["c15"].is_null() => c15::replay(case),
